@@ -175,17 +175,18 @@ func (u *URL) String() string {
 
 	// Pagination
 	if u.IsCol {
-		if num, ok := u.Params.Page["number"]; ok {
-			urlParams = append(
-				urlParams,
-				"page%5Bnumber%5D="+escapeQueryValue(fmt.Sprint(num)),
-			)
+		args := make([]string, 0, len(u.Params.Page))
+		for arg := range u.Params.Page {
+			args = append(args, arg)
 		}
 
-		if size, ok := u.Params.Page["size"]; ok {
+		sort.Strings(args)
+
+		for _, arg := range args {
 			urlParams = append(
 				urlParams,
-				"page%5Bsize%5D="+escapeQueryValue(fmt.Sprint(size)),
+				"page%5B"+escapeQueryValue(arg)+"%5D="+
+					escapeQueryValue(fmt.Sprint(u.Params.Page[arg])),
 			)
 		}
 	}
